@@ -139,7 +139,7 @@ fn c03_hp_pubrec_match() {
     kani::cover!(c < 0x80);
 }
 
-// @harness props=C03 tier=quick layer=L2
+// @harness props=C03,C06 tier=quick layer=L2
 // @harness funcs="SessionData::handle_packet (PubRec stale)"
 // @harness sym="reason code (all 256), quota; packet id 9 (already awaiting PUBCOMP) or 100 (unknown)" bounds="same shape"
 #[kani::proof]
@@ -314,12 +314,14 @@ fn c04_hp_publish_q2_exactly_once() {
     let id: u16 = kani::any();
     let other: u16 = kani::any();
     kani::assume(other != id);
-    data.pending_server_packet_ids.push(other).unwrap();
     // first arrival: delivered, PUBREC(success)
     let r = data.handle_packet(&mut rt, inbound(QoS::ExactlyOnce, Some(id)));
     assert!(matches!(r, Ok(true)), "C04: first arrival of a QoS 2 publish is delivered");
     assert!(data.pending_server_packet_ids.contains(&id), "C04: the identifier is remembered until PUBREL");
     assert!(peek_control(&data.outbound, 0) == Some(ControlAction::PubRec { packet_id: id, reason: ReasonCode::Success }), "C04: PUBREC with the same identifier");
+    // a second exchange with another identifier (smaller or larger: the pending list is in arrival
+    // order, not sorted) starts in between
+    data.pending_server_packet_ids.push(other).unwrap();
     // retransmission before PUBREL: acknowledged, not delivered
     let r = data.handle_packet(&mut rt, inbound(QoS::ExactlyOnce, Some(id)));
     assert!(matches!(r, Ok(false)), "C04: a retransmitted QoS 2 publish is delivered a second time");
